@@ -19,7 +19,7 @@ final = {}
 for l in open(finalf):
     m = re.match(r'(C\d\d)/(\d) check=(C\d\d) new=(\d+) engine=(\d+) keys: (.*)', l)
     if m:
-        final.setdefault((m.group(1), m.group(2)), []).append({'check': m.group(3), 'new': int(m.group(4)), 'keys': m.group(6).split()})
+        final.setdefault((m.group(1), m.group(2)), []).append({'check': m.group(3), 'new': int(m.group(4)), 'keys': [x.strip() for x in re.split(r' (?=C\d\d/)', m.group(6).strip()) if x.strip()]})
 notes = json.load(open(os.path.join(os.path.dirname(finalf), 'notes.json'))) if os.path.exists(os.path.join(os.path.dirname(finalf), 'notes.json')) else {}
 for (pid, k), f in sorted(first.items()):
     src = f'{root}/{pid}/out/{k}'
@@ -37,7 +37,7 @@ for (pid, k), f in sorted(first.items()):
     fin = final.get((pid, k), [])
     own = [x for x in fin if x['check'] == pid]
     cross = [x for x in fin if x['check'] != pid and x['new'] > 0]
-    caught_first = (f['new'] or 0) > 0
+    caught_first = (f['new'] or 0) > 0 or len(f['keys']) > 0
     if caught_first:
         det = 'caught at first run by ' + pid + ': ' + ', '.join(f['keys'][:3])
     elif own and own[-1]['new'] > 0:
